@@ -223,7 +223,8 @@ type elem struct {
 
 type streamLog struct {
 	elems    []elem
-	endAfter int // index of the element that carried END_STREAM, -1 none
+	endAfter int   // index of the last element that carried END_STREAM, -1 none
+	ends     []int // every element index at which END_STREAM was seen / sent
 }
 
 type endpoint struct {
@@ -353,6 +354,7 @@ func (e *endpoint) readLoop() {
 			}
 			if f.StreamEnded() {
 				l.endAfter = len(l.elems) - 1
+				l.ends = append(l.ends, l.endAfter)
 			}
 		case *http2.HeadersFrame:
 			e.hbStream, e.hbKind, e.hbEnd, e.hbBuf = f.StreamID, "H", f.StreamEnded(), append([]byte(nil), f.HeaderBlockFragment()...)
@@ -484,6 +486,7 @@ func (e *endpoint) finishBlock() {
 		l.elems = append(l.elems, elem{Kind: "H", Hdrs: hf})
 		if e.hbEnd {
 			l.endAfter = len(l.elems) - 1
+			l.ends = append(l.ends, l.endAfter)
 		}
 	case "PP":
 		l.elems = append(l.elems, elem{Kind: "PP", Hdrs: hf, PID: e.hbPID})
@@ -767,6 +770,7 @@ func (r *h2run) step(c H2Case, s Step) bool {
 		}
 		if s.End {
 			l.endAfter = len(l.elems) - 1
+			l.ends = append(l.ends, l.endAfter)
 		}
 	case "headers":
 		l := log.slog(id)
@@ -780,6 +784,7 @@ func (r *h2run) step(c H2Case, s Step) bool {
 		l.elems = append(l.elems, elem{Kind: "H", Hdrs: hdrs})
 		if s.End {
 			l.endAfter = len(l.elems) - 1
+			l.ends = append(l.ends, l.endAfter)
 		}
 	case "push":
 		l := log.slog(id)
@@ -1051,7 +1056,7 @@ func runH2(c H2Case, checkC10 bool) (fails []vstat.Failure) {
 }
 
 func sameLog(want, got *streamLog) bool {
-	if len(want.elems) != len(got.elems) || want.endAfter != got.endAfter {
+	if len(want.elems) != len(got.elems) || want.endAfter != got.endAfter || fmt.Sprint(want.ends) != fmt.Sprint(got.ends) {
 		return false
 	}
 	for i := range want.elems {
@@ -1087,8 +1092,10 @@ func descLog(l *streamLog) string {
 		case "RST":
 			s += fmt.Sprintf("(%d)", e.Code)
 		}
-		if i == l.endAfter {
-			s += "+END_STREAM"
+		for _, e := range l.ends {
+			if e == i {
+				s += "+END_STREAM"
+			}
 		}
 		p = append(p, s)
 	}
@@ -1122,7 +1129,7 @@ func (r *h2run) judge(c H2Case, checkC10, okA, okB, credA, credB bool) {
 					key = keyPushCont
 				}
 				// classify: END_STREAM moved (known shape: HEADERS continued by CONTINUATION)
-				if g != nil && len(g.elems) == len(l.elems) && g.endAfter != l.endAfter {
+				if g != nil && len(g.elems) == len(l.elems) && fmt.Sprint(g.ends) != fmt.Sprint(l.ends) {
 					key = "C10:end-stream-moved"
 					if contHeaders(c, d.name[:1], id) {
 						key = "C10:continuation-end-stream"
